@@ -11,11 +11,14 @@ Generated:
                      validations, payload_info and correlation_id tables; enum string tables
   coq/Gen/Errors.v   ErrorReason <-> string tables, recoverable set
   coq/Gen/Consts.v   numeric / character constants read from the sources
+  coq/Gen/LockLint.v sharded-map accesses whose guard is alive across an await (translator/locklint.py)
   harness/src/gen_schema.rs  Message <-> generic value conversions used by the codec driver
 """
 import os
 import re
 import sys
+
+sys.path.insert(0, os.path.dirname(os.path.abspath(__file__)))
 
 REPO = os.environ.get("VERIF_REPO", "/repo")
 VERIF = os.path.dirname(os.path.dirname(os.path.abspath(__file__)))
@@ -537,6 +540,11 @@ def main():
             os.path.join(VERIF, "coq/Gen/Consts.v"): gen_consts(),
             os.path.join(VERIF, "harness/src/gen_schema.rs"): gen_rust(ms),
         }
+        import locklint
+        try:
+            files[os.path.join(VERIF, "coq/Gen/LockLint.v")] = locklint.gen(REPO)
+        except locklint.Shape as e:
+            raise Shape("lock lint: %s" % e)
     except Shape as e:
         print(f"TRANSLATOR-SHAPE-ERROR: {e}")
         return 3
